@@ -792,8 +792,11 @@ class HostInterp:
                 kwargs.update(self.ev(k.value, env))
         if not isinstance(fn, (Closure, tuple)):
             # closures handed to host functions (reduce, map, sorted key, ...) become callables
-            args = [self.as_callable(a) for a in args]
-            kwargs = {k: self.as_callable(v) for k, v in kwargs.items()}
+            # (an object of the package that happens to be callable stays the object it is when it is merely stored in a
+            # host container: `pending.append(function_object)`)
+            stores = isinstance(getattr(fn, "__self__", None), (list, dict, set))
+            args = [a if stores and isinstance(a, Instance) else self.as_callable(a) for a in args]
+            kwargs = {k: v if stores and isinstance(v, Instance) else self.as_callable(v) for k, v in kwargs.items()}
         if isinstance(fn, tuple) and fn and fn[0] == "builtin-visit":
             node = args[0]
             if fn[1] == "visit":
